@@ -239,6 +239,7 @@ class Kind(object):
     self.nullable = nullable
     self.tags = tags        # for 'val': allowed tags (tuple) or None
     self.key = key          # Kind of dict keys (default: str)
+    self.owned = False
 
   def __repr__(self):
     s = self.tag
@@ -271,9 +272,17 @@ def parse_kind(s):
     return s
   s = s.strip()
   nullable = False
+  if s.startswith('own:'):
+    # owned container: the object stored in this field is referenced by this field of this object only
+    k = parse_kind(s[4:])
+    k.owned = True
+    return k
   if s.startswith('opt:'):
     nullable = True
     s = s[4:]
+  if s.startswith('ptuple('):
+    # python-side tuple of fixed arity:  ptuple(kind1;kind2)
+    return Kind('ptuple', elem=[parse_kind(x) for x in s[7:-1].split(';')])
   if s.startswith('val'):
     tags = None
     if '{' in s:
